@@ -118,7 +118,7 @@ def run(tier):
     n_tlc = len(use)
     # random larger documents over the real inventory
     tg = [Category.parse(s) for s in inventory.targets('en')]
-    vocab = ['w%d' % i for i in range(8)] + ['the', 'The', 'THE', 'Dog', 'dog']
+    vocab = ['w%d' % i for i in range(8)] + ['the', 'The', 'THE', 'Dog', 'dog', '(', '-LRB-', ')', '-RRB-', '[', '-LSB-']
     n_rand = 300 if tier == 'quick' else 3000
     for _ in range(n_rand):
         ncat = rng.choice([5, 20, len(tg)])
